@@ -599,6 +599,13 @@ func bytesEq(a, b []*Term) *Term {
 	if len(a) != len(b) {
 		return TFalse
 	}
+	if len(a) > 1 {
+		if x, ok := Collapse(a); ok {
+			if y, ok2 := Collapse(b); ok2 && !(x.Op == OpConst && y.Op == OpConst) {
+				return Eq(x, y)
+			}
+		}
+	}
 	r := TTrue
 	for i := range a {
 		r = And(r, Eq(a[i], b[i]))
@@ -663,6 +670,22 @@ func (c *Ctx) equals(t types.Type, x, y value) *Term {
 		return r
 	case array:
 		ys := y.(array)
+		if len(xv) > 1 && len(xv) == len(ys) {
+			if _, isT := xv[0].(*Term); isT && !xv[0].(*Term).IsBool() {
+				allT := true
+				for i := range xv {
+					_, ok1 := xv[i].(*Term)
+					_, ok2 := ys[i].(*Term)
+					if !ok1 || !ok2 {
+						allT = false
+						break
+					}
+				}
+				if allT && byteArrayType(t) {
+					return bytesEq(valsTerms(xv), valsTerms(ys))
+				}
+			}
+		}
 		r := TTrue
 		var et types.Type
 		if at, ok := t.Underlying().(*types.Array); ok && t != nil {
@@ -1074,4 +1097,24 @@ func (c *Ctx) rangeIter(x value, t types.Type) iter {
 		c.unsupported("range over symbolic string")
 	}
 	panic(fmt.Sprintf("cannot range over %T", x))
+}
+
+func valsTerms(vs []value) []*Term {
+	r := make([]*Term, len(vs))
+	for i := range vs {
+		r[i] = vs[i].(*Term)
+	}
+	return r
+}
+
+func byteArrayType(t types.Type) bool {
+	if t == nil {
+		return false
+	}
+	at, ok := t.Underlying().(*types.Array)
+	if !ok {
+		return false
+	}
+	b, ok := at.Elem().Underlying().(*types.Basic)
+	return ok && b.Kind() == types.Uint8
 }
